@@ -220,19 +220,18 @@ def pkg_frames(acc):
 
 
 def attribute(rep, known):
-    """The known finding a race report belongs to, or None."""
-    by_fn = {}
-    for e in known:
-        by_fn.setdefault(e["function"], e)
-        for p in e.get("publishes", []):
-            by_fn.setdefault(p, e)
-    callers_too = {e["function"] for e in known if e.get("callers_too")}
+    """The known finding a race report belongs to, or None: one of the two
+    accesses happens in (or, for entries with depth > 1, within that many
+    package frames of) a known site's function, or is the construction of an
+    object that a known unsynchronised pointer read publishes."""
     for acc in rep["accesses"]:
         fr = pkg_frames(acc)
-        if fr and fr[0][0] in by_fn:
-            return by_fn[fr[0][0]]
-        if len(fr) > 1 and fr[1][0] in callers_too:
-            return by_fn[fr[1][0]]
+        for idx, (fn, _, _) in enumerate(fr):
+            for e in known:
+                if e["function"] == fn and idx < e.get("depth", 1):
+                    return e
+                if idx == 0 and fn in e.get("publishes", []):
+                    return e
     return None
 
 
